@@ -21,6 +21,7 @@ SOURCES = {
     "caller_f": "def c2(x: bool, y: bool) -> bool:\n    return not f(x, y)\n",
     "param": "def p(c: Parameter[Qint[2]], a: Qint[2]) -> Qint[2]:\n    return a + c\n",
     "param2": "def p2(c: Parameter[bool], d: Parameter[Qint[2]], a: bool) -> Qint[2]:\n    return d if (a ^ c) else 1\n",
+    "param_caller": "def pc(c: Parameter[Qint[2]], a: Qint[2]) -> Qint[2]:\n    return g(a) + c\n",
     "param_all": "def pa(c: Parameter[Qlist[bool, 3]], a: bool) -> bool:\n    return all(c) and a\n",
     "param_sum": "def ps(c: Parameter[Qlist[Qint[2], 2]], a: Qint[2]) -> Qint[2]:\n    return sum(c) + a\n",
     "param_any": "def pn(c: Parameter[Tuple[bool, bool]], a: bool) -> bool:\n    return any(c) ^ a\n",
